@@ -30,7 +30,7 @@ vars == <<owner, releases, result, cls, act>>
 Stages == {"parse", "link-pre", "link-mid", "link-post", "sealed", "kx", "sched"}
 Kinds == [ parse |-> {"random", "truncated", "bit", "lengths", "tiers"},
            linkpre |-> {"len0to3", "len4to11", "len12to27", "lenbeyond", "lenmax", "garbage", "mutated"},
-           linkmid |-> {"mutated2", "mutated3", "lengths", "garbage", "signed-fields"},
+           linkmid |-> {"mutated2", "mutated3", "lengths", "garbage", "signed-fields", "paused-handshake"},
            linkpost |-> {"len0to3", "len4to11", "len12to27", "lenbeyond", "garbage", "replayed-handshake", "peer-stops-reading"},
            sealed |-> {"msgtype", "header", "switchblock", "pinghdr-version", "pinghdr-length", "pinghdr-cbor", "pinghdr-type", "pinghdr-code",
                        "pinghdr-identity", "body-random", "body-truncated", "body-wrongtype", "body-deep", "body-hugelen", "body-crossfed",
